@@ -6,6 +6,8 @@ CONSTANTS
   WriteErrs = {"EPIPE", "RST", "timeout", "other", "closed"}
   ForwardWithErr = TRUE
   DialMayFail = FALSE
+  BufCap = 3
+  BufMode = "private"
   MaxFaults = 100
   Scheds = {"free"}
   Asyncs = {"eager"}
